@@ -1056,7 +1056,8 @@ structure DecsOk (g0 : G) (k : Nat) (K : Kind → Prop) (R : Nat → Prop) (g g'
   step : Step k g g'
   all : ∀ v, v ∈ vs → g0.n ≤ v ∧ v < g'.n ∧ K (g'.kind v)
 
-/-- the common shape of `decodeBlocks`, `decodeIntervals`, ... -/
+/-- the common shape of `decodeBlocks` (and of the list decoders `decodeIntervals`, ..., which
+`decodeSection` / `decodeModule` do not use: they run `decodeAttach`) -/
 def decodeList {α : Type} (f : G → α → Except LErr (G × Nat)) : G → List α → Except LErr (G × List Nat)
   | g, [] => .ok (g, [])
   | g, a :: as =>
@@ -1298,7 +1299,8 @@ theorem decodeInterval_ok {g0 : G} (R : Nat → Prop) (g : G) (x : SkInterval) (
           show (cacheAddInterval g3 g0.n g.n).kind g.n = .interval
           rw [st14.kind_eq hI1]; simp
 
-/-- the loop `for x in xs: p.<coll>.add(x)` on a detached new node `p` -/
+/-- the loop `for x in xs: p.<coll>.add(x)` on a detached new node `p` (all children decoded first; the
+decoders of sections and modules interleave decoding and adding instead, see `decodeAttach_ok`) -/
 theorem foldE_setAdd_ok {g0 : G} {p : Nat} {s : Slot} (hp0 : g0.n ≤ p) : ∀ (xs : List Nat) (g g' : G) (R : Nat → Prop),
     Mid g0 g → AllCov g0.n g R → R p → g.par p = none → g.kind p ≠ .ir →
     (∀ x, x ∈ xs → g0.n ≤ x ∧ ChildOK g p s x) →
@@ -1351,6 +1353,56 @@ theorem attach_phase {g0 ga gb gc : G} {R : Nat → Prop} {p : Nat} {s : Slot} {
     have := cache_rank_parentKind (hK _ (d.all x hx).2.2).2
     omega
 
+/-- `p.<coll>.update(dec(c) for c in children)` on a detached new node `p`: decode one child, add it,
+decode the next (`decodeAttach`) -/
+theorem decodeAttach_ok {α : Type} {dec : G → Nat → α → Except LErr (G × Nat)} {g0 : G} {k : Nat}
+    {K : Kind → Prop} {p : Nat} {s : Slot} {kp : Kind}
+    (hf : ∀ (R : Nat → Prop) g a g' v, Mid g0 g → AllCov g0.n g R → dec g g0.n a = .ok (g', v) →
+      DecOk g0 k K R g g' v)
+    (hp0 : g0.n ≤ p) (hkp : kp ≠ .ir) (hrk : cache_rank kp ≤ k)
+    (hK : ∀ kd, K kd → slotOf kd = some s ∧ parentKind kd = some kp) :
+    ∀ (as : List α) (R : Nat → Prop) (g g' : G), Mid g0 g → AllCov g0.n g R → R p → p < g.n →
+      g.par p = none → g.kind p = kp → decodeAttach dec g0.n p s g as = .ok g' →
+      Mid g0 g' ∧ AllCov g0.n g' R ∧ Step (cache_rank kp) g g' := by
+  intro as
+  induction as with
+  | nil =>
+    intro R g g' hm hc _ _ _ _ h
+    cases h
+    exact ⟨hm, hc, Step.refl _ _⟩
+  | cons a as ih =>
+    intro R g g' hm hc hRp hpn hpp hkind h
+    simp only [decodeAttach] at h
+    split at h
+    · cases h
+    · rename_i g1 v h1
+      split at h
+      · cases h
+      · rename_i g2 h2
+        have d1 := hf R g a g1 v hm hc h1
+        have hppb : g1.par p = none := by
+          rw [d1.step.par p hpn (by rw [hkind]; exact hrk)]; exact hpp
+        have hkb : g1.kind p = kp := (d1.step.kind_eq hpn).trans hkind
+        have hpnb : p < g1.n := d1.step.lt hpn
+        have hch : ChildOK g1 p s v := ⟨hpnb, d1.lt, (hK _ d1.kind).1, by rw [hkb]; exact (hK _ d1.kind).2⟩
+        have hmv := setAdd_moved d1.mid hp0 hppb (by rw [hkb]; exact hkp) d1.new hch (liftE_ok h2)
+        have hm2 := d1.mid.moved hmv hp0 (fun w hw => by subst hw; exact ⟨d1.new, d1.lt⟩)
+        have hc2 : AllCov g0.n g2 R := by
+          refine (hmv.cov (R := fun r => R r ∨ r = v) (.inl hRp) d1.cov).shrink ?_
+          rintro r (hr | rfl)
+          · exact Cov.self hr
+          · exact ⟨p, hRp, .step (hmv.par_in r rfl) .refl⟩
+        have hpv : p ≠ v := (cache_ne_of_parentKind hch.2.2.2).symm
+        have st12 : Step (cache_rank kp) g1 g2 := by
+          refine Step.of_moved hmv ?_
+          intro w hw
+          subst hw
+          have := cache_rank_parentKind (hK _ d1.kind).2
+          omega
+        obtain ⟨r1, r2, r3⟩ := ih R g2 g' hm2 hc2 hRp (by rw [hmv.stable.n]; exact hpnb)
+          (by rw [hmv.par_out p hpv]; exact hppb) (by rw [hmv.stable.kind]; exact hkb) h
+        exact ⟨r1, r2, (d1.step.mono hrk).trans (st12.trans r3)⟩
+
 theorem decodeSection_ok {g0 : G} (R : Nat → Prop) (g : G) (x : SkSection) (g' : G) (v : Nat) (hm : Mid g0 g)
     (hc : AllCov g0.n g R) (h : decodeSection g g0.n x = .ok (g', v)) :
     DecOk g0 2 (fun kd => kd = .section) R g g' v := by
@@ -1366,26 +1418,21 @@ theorem decodeSection_ok {g0 : G} (R : Nat → Prop) (g : G) (x : SkSection) (g'
     · simp only [Bool.not_true, Bool.false_eq_true, if_false] at h
       split at h
       · cases h
-      · rename_i g3 xs hxs
-        split at h
-        · cases h
-        · rename_i g4 hfold
-          cases h
-          have hfold' := liftE_ok hfold
-          obtain ⟨a1, a2, a3⟩ := fresh_reg hm hc .section x.uuid (by decide) (by decide)
-          rw [decodeIntervals_eq] at hxs
-          have d := decodeList_ok (fun R g a g' v => decodeInterval_ok R g a g' v) _ _ _ _ _ a1 a2 hxs
-          have hS1 : g.n < (cacheSet (alloc g .section x.uuid).1 g0.n x.uuid g.n).n := Nat.lt_succ_self _
-          have hkS : (cacheSet (alloc g .section x.uuid).1 g0.n x.uuid g.n).kind g.n = .section := by
-            show (alloc g .section x.uuid).1.kind g.n = _; simp
-          obtain ⟨r1, r2, r3⟩ := attach_phase (s := .bis) d (.inr rfl) (Nat.le_of_lt hm.lt) hS1
-            (by show (alloc g .section x.uuid).1.par g.n = _; simp) (by rw [hkS]; decide)
-            (by rw [hkS]; decide) (by intro kd hkd; subst hkd; rw [hkS]; exact ⟨rfl, rfl⟩) hfold'
-          rw [hkS] at r3
-          have r3' : Step 2 _ g' := r3
-          refine ⟨r1, r2, (a3.mono (by omega)).trans r3', Nat.le_of_lt hm.lt, r3'.lt hS1, ?_⟩
-          show g'.kind g.n = .section
-          rw [r3'.kind_eq hS1]; exact hkS
+      · rename_i g4 hatt
+        cases h
+        obtain ⟨a1, a2, a3⟩ := fresh_reg hm hc .section x.uuid (by decide) (by decide)
+        have hS1 : g.n < (cacheSet (alloc g .section x.uuid).1 g0.n x.uuid g.n).n := Nat.lt_succ_self _
+        have hkS : (cacheSet (alloc g .section x.uuid).1 g0.n x.uuid g.n).kind g.n = .section := by
+          show (alloc g .section x.uuid).1.kind g.n = _; simp
+        obtain ⟨r1, r2, r3⟩ := decodeAttach_ok (s := .bis) (kp := .section) (k := 3)
+          (K := fun kd => kd = .interval)
+          (fun R g a g' v => decodeInterval_ok R g a g' v) (Nat.le_of_lt hm.lt) (by decide) (by decide)
+          (by intro kd hkd; subst hkd; exact ⟨rfl, rfl⟩) _ _ _ _ a1 a2 (.inr rfl) hS1
+          (by show (alloc g .section x.uuid).1.par g.n = _; simp) hkS hatt
+        have r3' : Step 2 _ g' := r3
+        refine ⟨r1, r2, (a3.mono (by omega)).trans r3', Nat.le_of_lt hm.lt, r3'.lt hS1, ?_⟩
+        show g'.kind g.n = .section
+        rw [r3'.kind_eq hS1]; exact hkS
 
 theorem decodeSymbol_ok {g0 : G} (R : Nat → Prop) (g : G) (x : SkSymbol) (g' : G) (v : Nat) (hm : Mid g0 g)
     (hc : AllCov g0.n g R) (h : decodeSymbol g g0.n x = .ok (g', v)) :
@@ -1495,81 +1542,63 @@ theorem decodeModule_spec {g0 : G} (R : Nat → Prop) (g : G) (m : SkModule) (g'
     · simp only [Bool.not_true, Bool.false_eq_true, if_false] at h
       split at h
       · cases h
-      · rename_i g3 ps hps
+      · rename_i g4 hat4
         split at h
         · cases h
-        · rename_i g4 hf4
+        · rename_i g6 hat6
           split at h
           · cases h
-          · rename_i g5 ss hss
+          · rename_i ent hent
             split at h
             · cases h
-            · rename_i g6 hf6
+            · rename_i g8 hat8
               split at h
               · cases h
-              · rename_i ent hent
-                split at h
-                · cases h
-                · rename_i g7 ys hys
-                  split at h
-                  · cases h
-                  · rename_i g8 hf8
-                    split at h
-                    · cases h
-                    · rename_i chk hchk
-                      cases h
-                      have hf4' := liftE_ok hf4
-                      have hf6' := liftE_ok hf6
-                      have hf8' := liftE_ok hf8
-                      obtain ⟨a1, a2, a3⟩ := fresh_reg hm hc .module m.uuid (by decide) (by decide)
-                      have hM0 : g0.n ≤ g.n := Nat.le_of_lt hm.lt
-                      have hM2 : g.n < (cacheSet (alloc g .module m.uuid).1 g0.n m.uuid g.n).n := Nat.lt_succ_self _
-                      have hk2 : (cacheSet (alloc g .module m.uuid).1 g0.n m.uuid g.n).kind g.n = .module := by
-                        show (alloc g .module m.uuid).1.kind g.n = _; simp
-                      have hp2 : (cacheSet (alloc g .module m.uuid).1 g0.n m.uuid g.n).par g.n = none := by
-                        show (alloc g .module m.uuid).1.par g.n = _; simp
-                      -- proxies
-                      rw [decodeProxies_eq] at hps
-                      have d1 := decodeList_ok (fun R g a g' v => decodeProxy_ok R g a g' v) _ _ _ _ _ a1 a2 hps
-                      obtain ⟨m4, c4, s24⟩ := attach_phase (s := .proxies) d1 (.inr rfl) hM0 hM2 hp2
-                        (by rw [hk2]; decide) (by rw [hk2]; decide)
-                        (by intro kd hkd; subst hkd; rw [hk2]; exact ⟨rfl, rfl⟩) hf4'
-                      rw [hk2] at s24
-                      have s24' : Step 1 _ g4 := s24
-                      obtain ⟨hM4, hp4, hk4⟩ := s24'.keep hM2 (by rw [hk2]; decide)
-                      rw [hp2] at hp4; rw [hk2] at hk4
-                      -- sections
-                      rw [decodeSections_eq] at hss
-                      have d2 := decodeList_ok (fun R g a g' v => decodeSection_ok R g a g' v) _ _ _ _ _ m4 c4 hss
-                      obtain ⟨m6, c6, s46⟩ := attach_phase (s := .secs) d2 (.inr rfl) hM0 hM4 hp4
-                        (by rw [hk4]; decide) (by rw [hk4]; decide)
-                        (by intro kd hkd; subst hkd; rw [hk4]; exact ⟨rfl, rfl⟩) hf6'
-                      rw [hk4] at s46
-                      have s46' : Step 1 g4 g6 := s46
-                      obtain ⟨hM6, hp6, hk6⟩ := s46'.keep hM4 (by rw [hk4]; decide)
-                      rw [hp4] at hp6; rw [hk4] at hk6
-                      -- symbols
-                      rw [decodeSymbols_eq] at hys
-                      have d3 := decodeList_ok (fun R g a g' v => decodeSymbol_ok R g a g' v) _ _ _ _ _ m6 c6 hys
-                      obtain ⟨m8, c8, s68⟩ := attach_phase (s := .syms) d3 (.inr rfl) hM0 hM6 hp6
-                        (by rw [hk6]; decide) (by rw [hk6]; decide)
-                        (by intro kd hkd; subst hkd; rw [hk6]; exact ⟨rfl, rfl⟩) hf8'
-                      rw [hk6] at s68
-                      have s68' : Step 1 g6 g' := s68
-                      obtain ⟨hM8, _, hk8⟩ := s68'.keep hM6 (by rw [hk6]; decide)
-                      rw [hk6] at hk8
-                      refine ⟨⟨m8, c8, (a3.mono (by omega)).trans (s24'.trans (s46'.trans s68')), hM0, hM8, hk8⟩,
-                        fun _ => ⟨?_, ?_⟩⟩
-                      · intro u hu
-                        rw [hu] at hent
-                        obtain ⟨n, hn, hkn⟩ := refKind_ok hent
-                        obtain ⟨e1, e2, e3⟩ := m6.entries _ _ hn
-                        refine ⟨n, e1, s68'.lt e2, ?_, ?_⟩
-                        · rw [s68'.kind_eq e2]; simpa using hkn
-                        · rw [(s68'.grows.2 n e2).2]; exact e3
-                      · intro u hu
-                        obtain ⟨n, hn, hkn⟩ := checkAll_ok _ hchk u hu
-                        exact ⟨n, hn, by simpa using hkn⟩
+              · rename_i chk hchk
+                cases h
+                obtain ⟨a1, a2, a3⟩ := fresh_reg hm hc .module m.uuid (by decide) (by decide)
+                have hM0 : g0.n ≤ g.n := Nat.le_of_lt hm.lt
+                have hM2 : g.n < (cacheSet (alloc g .module m.uuid).1 g0.n m.uuid g.n).n := Nat.lt_succ_self _
+                have hk2 : (cacheSet (alloc g .module m.uuid).1 g0.n m.uuid g.n).kind g.n = .module := by
+                  show (alloc g .module m.uuid).1.kind g.n = _; simp
+                have hp2 : (cacheSet (alloc g .module m.uuid).1 g0.n m.uuid g.n).par g.n = none := by
+                  show (alloc g .module m.uuid).1.par g.n = _; simp
+                -- proxies
+                obtain ⟨m4, c4, s24⟩ := decodeAttach_ok (s := .proxies) (kp := .module) (k := 4)
+                  (K := fun kd => kd = .proxy)
+                  (fun R g a g' v => decodeProxy_ok R g a g' v) hM0 (by decide) (by decide)
+                  (by intro kd hkd; subst hkd; exact ⟨rfl, rfl⟩) _ _ _ _ a1 a2 (.inr rfl) hM2 hp2 hk2 hat4
+                have s24' : Step 1 _ g4 := s24
+                obtain ⟨hM4, hp4, hk4⟩ := s24'.keep hM2 (by rw [hk2]; decide)
+                rw [hp2] at hp4; rw [hk2] at hk4
+                -- sections
+                obtain ⟨m6, c6, s46⟩ := decodeAttach_ok (s := .secs) (kp := .module) (k := 2)
+                  (K := fun kd => kd = .section)
+                  (fun R g a g' v => decodeSection_ok R g a g' v) hM0 (by decide) (by decide)
+                  (by intro kd hkd; subst hkd; exact ⟨rfl, rfl⟩) _ _ _ _ m4 c4 (.inr rfl) hM4 hp4 hk4 hat6
+                have s46' : Step 1 g4 g6 := s46
+                obtain ⟨hM6, hp6, hk6⟩ := s46'.keep hM4 (by rw [hk4]; decide)
+                rw [hp4] at hp6; rw [hk4] at hk6
+                -- symbols
+                obtain ⟨m8, c8, s68⟩ := decodeAttach_ok (s := .syms) (kp := .module) (k := 4)
+                  (K := fun kd => kd = .symbol)
+                  (fun R g a g' v => decodeSymbol_ok R g a g' v) hM0 (by decide) (by decide)
+                  (by intro kd hkd; subst hkd; exact ⟨rfl, rfl⟩) _ _ _ _ m6 c6 (.inr rfl) hM6 hp6 hk6 hat8
+                have s68' : Step 1 g6 g' := s68
+                obtain ⟨hM8, _, hk8⟩ := s68'.keep hM6 (by rw [hk6]; decide)
+                rw [hk6] at hk8
+                refine ⟨⟨m8, c8, (a3.mono (by omega)).trans (s24'.trans (s46'.trans s68')), hM0, hM8, hk8⟩,
+                  fun _ => ⟨?_, ?_⟩⟩
+                · intro u hu
+                  rw [hu] at hent
+                  obtain ⟨n, hn, hkn⟩ := refKind_ok hent
+                  obtain ⟨e1, e2, e3⟩ := m6.entries _ _ hn
+                  refine ⟨n, e1, s68'.lt e2, ?_, ?_⟩
+                  · rw [s68'.kind_eq e2]; simpa using hkn
+                  · rw [(s68'.grows.2 n e2).2]; exact e3
+                · intro u hu
+                  obtain ⟨n, hn, hkn⟩ := checkAll_ok _ hchk u hu
+                  exact ⟨n, hn, by simpa using hkn⟩
 
 theorem decodeModule_ok {g0 : G} (R : Nat → Prop) (g : G) (m : SkModule) (g' : G) (v : Nat) (hm : Mid g0 g)
     (hc : AllCov g0.n g R) (h : decodeModule g g0.n m = .ok (g', v)) :
@@ -1760,6 +1789,23 @@ theorem foldE_setAdd_stable {p : Nat} {s : Slot} {xs : List Nat} {g g' : G}
     (h : foldE (fun g x => setAdd g p s x) xs g = .ok g') : Stable g g' :=
   stable_foldE (fun _ _ _ hh => setAdd_stable hh) xs h
 
+theorem decodeAttach_made {α : Type} {dec : G → Nat → α → Except LErr (G × Nat)} {i p : Nat} {s : Slot} {c : Nat}
+    (hf : ∀ g a g' v, dec g i a = .ok (g', v) → Made c g g') :
+    ∀ (as : List α) (g g' : G), decodeAttach dec i p s g as = .ok g' → Made c g g' := by
+  intro as
+  induction as with
+  | nil => intro g g' h; cases h; exact Made.refl _ _
+  | cons a as ih =>
+    intro g g' h
+    simp only [decodeAttach] at h
+    split at h
+    · cases h
+    · rename_i g1 v h1
+      split at h
+      · cases h
+      · rename_i g2 h2
+        exact (hf g a g1 v h1).trans ((Made.of_stable (setAdd_stable (liftE_ok h2))).trans (ih g2 g' h))
+
 theorem decodeSection_made {g g' : G} {i : Nat} {x : SkSection} {v : Nat}
     (h : decodeSection g i x = .ok (g', v)) : Made 2 g g' := by
   unfold decodeSection at h
@@ -1772,16 +1818,11 @@ theorem decodeSection_made {g g' : G} {i : Nat} {x : SkSection} {v : Nat}
     · simp only [] at h
       split at h
       · cases h
-      · rename_i g3 xs hxs
-        split at h
-        · cases h
-        · rename_i g4 hfold
-          rw [decodeIntervals_eq] at hxs
-          have h2 := (decodeList_made (fun _ _ _ _ hh => decodeInterval_made hh) _ _ _ _ hxs).mono
-            (show 2 ≤ 3 by omega)
-          have h3 : Made 2 g3 g4 := Made.of_stable (foldE_setAdd_stable (liftE_ok hfold))
-          cases h
-          exact h1.trans ((Made.of_stable (stable_cacheSet _ _ _ _)).trans (h2.trans h3))
+      · rename_i g4 hatt
+        have h2 := (decodeAttach_made (c := 3) (fun _ _ _ _ hh => decodeInterval_made hh) _ _ _ hatt).mono
+          (show 2 ≤ 3 by omega)
+        cases h
+        exact h1.trans ((Made.of_stable (stable_cacheSet _ _ _ _)).trans h2)
 
 theorem decodeSymbol_made {g g' : G} {i : Nat} {x : SkSymbol} {v : Nat}
     (h : decodeSymbol g i x = .ok (g', v)) : Made 2 g g' := by
@@ -1814,48 +1855,33 @@ theorem decodeModule_made {g g' : G} {i : Nat} {m : SkModule} {v : Nat}
     · simp only [Bool.not_true, Bool.false_eq_true, if_false] at h
       split at h
       · cases h
-      · rename_i g3 ps hps
+      · rename_i g4 hat4
         split at h
         · cases h
-        · rename_i g4 hf4
+        · rename_i g6 hat6
           split at h
           · cases h
-          · rename_i g5 ss hss
-            split at h
+          · split at h
             · cases h
-            · rename_i g6 hf6
+            · rename_i g8 hat8
               split at h
               · cases h
-              · split at h
-                · cases h
-                · rename_i g7 ys hys
-                  split at h
-                  · cases h
-                  · rename_i g8 hf8
-                    split at h
-                    · cases h
-                    · rw [decodeProxies_eq] at hps
-                      rw [decodeSections_eq] at hss
-                      rw [decodeSymbols_eq] at hys
-                      have m23 := decodeList_made (fun _ _ _ _ hh => decodeProxy_made hh) _ _ _ _ hps
-                      have m34 : Made 2 g3 g4 := Made.of_stable (foldE_setAdd_stable (liftE_ok hf4))
-                      have m45 := decodeList_made (fun _ _ _ _ hh => decodeSection_made hh) _ _ _ _ hss
-                      have m56 : Made 2 g5 g6 := Made.of_stable (foldE_setAdd_stable (liftE_ok hf6))
-                      have m67 := decodeList_made (fun _ _ _ _ hh => decodeSymbol_made hh) _ _ _ _ hys
-                      have m78 : Made 2 g7 g8 := Made.of_stable (foldE_setAdd_stable (liftE_ok hf8))
-                      have m28 := m23.trans (m34.trans (m45.trans (m56.trans (m67.trans m78))))
-                      cases h
-                      refine ⟨(grows_alloc g .module m.uuid).trans ((stable_cacheSet _ _ _ _).grows.trans m28.1), ?_⟩
-                      intro x hx hlt hk
-                      by_cases hxn : x = g.n
-                      · subst hxn
-                        refine ⟨rfl, ?_⟩
-                        rw [(m28.1.2 g.n (Nat.lt_succ_self _)).2]
-                        show (alloc g .module m.uuid).1.uuid g.n = _
-                        simp
-                      · have := m28.2 x (by show g.n + 1 ≤ x; omega) hlt
-                        rw [hk] at this
-                        simp [cache_rank] at this
+              · have m24 := decodeAttach_made (c := 2) (fun _ _ _ _ hh => decodeProxy_made hh) _ _ _ hat4
+                have m46 := decodeAttach_made (c := 2) (fun _ _ _ _ hh => decodeSection_made hh) _ _ _ hat6
+                have m68 := decodeAttach_made (c := 2) (fun _ _ _ _ hh => decodeSymbol_made hh) _ _ _ hat8
+                have m28 := m24.trans (m46.trans m68)
+                cases h
+                refine ⟨(grows_alloc g .module m.uuid).trans ((stable_cacheSet _ _ _ _).grows.trans m28.1), ?_⟩
+                intro x hx hlt hk
+                by_cases hxn : x = g.n
+                · subst hxn
+                  refine ⟨rfl, ?_⟩
+                  rw [(m28.1.2 g.n (Nat.lt_succ_self _)).2]
+                  show (alloc g .module m.uuid).1.uuid g.n = _
+                  simp
+                · have := m28.2 x (by show g.n + 1 ≤ x; omega) hlt
+                  rw [hk] at this
+                  simp [cache_rank] at this
 
 /-! ### the entry-point and expression-symbol checks of the modules that are really decoded -/
 
@@ -2138,6 +2164,24 @@ theorem decodeInterval_uq {n0 : Nat} {g g' : G} {i : Nat} {x : SkInterval} {v : 
           exact h1.cons ((h2.then_stable (blkUpdate_stable (liftE_ok hblk))).then_stable
             (stable_of_onlyCache (onlyCache_cacheAddInterval _ _ _)))
 
+theorem decodeAttach_uq {α : Type} {dec : G → Nat → α → Except LErr (G × Nat)} {i p : Nat} {s : Slot} {n0 : Nat}
+    {L : α → List Nat} (hf : ∀ g a g' v, dec g i a = .ok (g', v) → Uq n0 (L a) g g') :
+    ∀ (as : List α) (g g' : G), decodeAttach dec i p s g as = .ok g' → Uq n0 (as.flatMap L) g g' := by
+  intro as
+  induction as with
+  | nil => intro g g' h; cases h; exact Uq.refl _ _ _
+  | cons a as ih =>
+    intro g g' h
+    simp only [decodeAttach] at h
+    split at h
+    · cases h
+    · rename_i g1 v h1
+      split at h
+      · cases h
+      · rename_i g2 h2
+        rw [List.flatMap_cons]
+        exact ((hf g a g1 v h1).then_stable (setAdd_stable (liftE_ok h2))).append (ih g2 g' h)
+
 theorem decodeSection_uq {n0 : Nat} {g g' : G} {i : Nat} {x : SkSection} {v : Nat}
     (h : decodeSection g i x = .ok (g', v)) : Uq n0 x.nodeUuids g g' := by
   unfold decodeSection at h
@@ -2151,16 +2195,11 @@ theorem decodeSection_uq {n0 : Nat} {g g' : G} {i : Nat} {x : SkSection} {v : Na
     · simp only [] at h
       split at h
       · cases h
-      · rename_i g3 xs hxs
-        split at h
-        · cases h
-        · rename_i g4 hfold
-          rw [decodeIntervals_eq] at hxs
-          have h2 := decodeList_uq (n0 := n0) (L := SkInterval.nodeUuids)
-            (fun _ _ _ _ hh => decodeInterval_uq hh) _ _ _ _ hxs
-          cases h
-          exact (h1.then_stable (stable_cacheSet _ _ _ _)).cons
-            (h2.then_stable (foldE_setAdd_stable (liftE_ok hfold)))
+      · rename_i g4 hatt
+        have h2 := decodeAttach_uq (n0 := n0) (L := SkInterval.nodeUuids)
+          (fun _ _ _ _ hh => decodeInterval_uq hh) _ _ _ hatt
+        cases h
+        exact (h1.then_stable (stable_cacheSet _ _ _ _)).cons h2
 
 theorem decodeSymbol_uq {n0 : Nat} {g g' : G} {i : Nat} {x : SkSymbol} {v : Nat}
     (h : decodeSymbol g i x = .ok (g', v)) : Uq n0 [x.uuid] g g' := by
@@ -2191,42 +2230,27 @@ theorem decodeModule_uq {n0 : Nat} {g g' : G} {i : Nat} {m : SkModule} {v : Nat}
     · simp only [] at h
       split at h
       · cases h
-      · rename_i g3 ps hps
+      · rename_i g4 hat4
         split at h
         · cases h
-        · rename_i g4 hf4
+        · rename_i g6 hat6
           split at h
           · cases h
-          · rename_i g5 ss hss
-            split at h
+          · split at h
             · cases h
-            · rename_i g6 hf6
+            · rename_i g8 hat8
               split at h
               · cases h
-              · split at h
-                · cases h
-                · rename_i g7 ys hys
-                  split at h
-                  · cases h
-                  · rename_i g8 hf8
-                    split at h
-                    · cases h
-                    · rw [decodeProxies_eq] at hps
-                      rw [decodeSections_eq] at hss
-                      rw [decodeSymbols_eq] at hys
-                      have u23 := decodeList_uq (n0 := n0) (L := fun u : Nat => [u])
-                        (fun _ _ _ _ hh => decodeProxy_uq hh) _ _ _ _ hps
-                      rw [flatMap_single, List.map_id'] at u23
-                      have u45 := decodeList_uq (n0 := n0) (L := SkSection.nodeUuids)
-                        (fun _ _ _ _ hh => decodeSection_uq hh) _ _ _ _ hss
-                      have u67 := decodeList_uq (n0 := n0) (L := fun y : SkSymbol => [y.uuid])
-                        (fun _ _ _ _ hh => decodeSymbol_uq hh) _ _ _ _ hys
-                      rw [flatMap_single] at u67
-                      cases h
-                      exact (h1.then_stable (stable_cacheSet _ _ _ _)).cons
-                        ((u23.then_stable (foldE_setAdd_stable (liftE_ok hf4))).append
-                          ((u45.then_stable (foldE_setAdd_stable (liftE_ok hf6))).append
-                            (u67.then_stable (foldE_setAdd_stable (liftE_ok hf8)))))
+              · have u24 := decodeAttach_uq (n0 := n0) (L := fun u : Nat => [u])
+                  (fun _ _ _ _ hh => decodeProxy_uq hh) _ _ _ hat4
+                rw [flatMap_single, List.map_id'] at u24
+                have u46 := decodeAttach_uq (n0 := n0) (L := SkSection.nodeUuids)
+                  (fun _ _ _ _ hh => decodeSection_uq hh) _ _ _ hat6
+                have u68 := decodeAttach_uq (n0 := n0) (L := fun y : SkSymbol => [y.uuid])
+                  (fun _ _ _ _ hh => decodeSymbol_uq hh) _ _ _ hat8
+                rw [flatMap_single] at u68
+                cases h
+                exact (h1.then_stable (stable_cacheSet _ _ _ _)).cons (u24.append (u46.append u68))
 
 theorem decodeModules_uq {n0 : Nat} (i : Nat) : ∀ (ms : List SkModule) (g g' : G), decodeModules i g ms = .ok g' →
     Uq n0 (ms.flatMap SkModule.nodeUuids) g g' := by
